@@ -278,3 +278,38 @@ def binding_selfcheck(ctx, module, events, n=3, mutate=corrupt_event, const=None
 def load_replay(path):
     with open(path) as f:
         return json.load(f)
+
+
+def build_events(ctx, inputs, start=0):
+    """inputs: iterable of (act, inp, class-key) -> events (executing the code)."""
+    from . import acts
+    events = []
+    for i, (a, inp, key) in enumerate(inputs):
+        ev = acts.make(a, inp, start + i)
+        events.append(ev)
+        ctx.nontriv((a,) + tuple(key) + (ev.get("res", {}).get("ok"),))
+    return events
+
+
+def report_rejects(ctx, events, rejects, describe=None, site=None):
+    """Turn rejected events into violations (call_site = action or site(ev), class = clause)."""
+    byid = {e["id"]: e for e in events}
+    for eid, clause in sorted(rejects.items()):
+        ev = byid[eid]
+        what = describe(ev) if describe else "%s(%s)" % (ev["act"], json.dumps(ev["inp"])[:200])
+        r = ev.get("res")
+        ctx.violation(site(ev, clause) if site else ev["act"], clause,
+                      "%s -> %s : %s" % (what, json.dumps(r)[:160], clause),
+                      {"act": ev["act"], "inp": ev["inp"], "clause": clause})
+
+
+def std_replay(ctx, path, module, const=None):
+    from . import acts
+    rp = load_replay(path)
+    ev = acts.make(rp["act"], rp["inp"], 0)
+    rj = ctx.validate(module, [ev], shards=1, const=const)
+    if rj:
+        print("VIOLATION property=%s replay=%s  # %s: %s" % (ctx.prop, path, rp["act"], rj[0]))
+        return 1
+    print("replay: event accepted by the specification (res=%s)" % json.dumps(ev.get("res"))[:300])
+    return 0
